@@ -819,4 +819,6 @@ def _dispatch_rule(ctx):
         ctx.res.ok("O1.6", "Range.__init__ sends NAME/NUMBER/STRING tokens to the symbolic/number/string helper", True)
 
 
-RULES = [rule_spellings, rule_membership, rule_constructors, rule_limit_spellings]
+from .common import rule_module_state  # noqa: E402
+
+RULES = [rule_spellings, rule_membership, rule_constructors, rule_limit_spellings, rule_module_state]
